@@ -58,16 +58,20 @@ TEXT = {
             "type; whole paths are step-wise the spec's and Path.gindex() concatenates those steps; to_gindex i d = 2^d+i. "
             "Node addressing and dynamic indices tied by correspondence + model-free oracle.",
             "Coq proof (case analysis on ty, N arithmetic/bit lemmas) + correspondence", "5 (C08)"),
-    "C09": ("Theorems: the decoder model is a total function for every type / byte string / scope and fails only with "
-            "error values; accepted uintN / boolean inputs yield consistent, stable values. Composite kinds: "
-            "correspondence over ~15k byte strings per run (exhaustive short strings, exhaustive first / last byte of "
-            "valid encodings, structure-aware corruptions) + model-free oracles (readable, within limits, content = root = "
-            "encoding, stable under encode / decode).",
-            "Coq proof (totality, leaf kinds) + correspondence with model-free oracles", "5 (C09)"),
-    "C10": ("Theorems: for uintN / boolean scoped decoding, acceptance implies scope = size and re-encoding = the consumed "
-            "bytes; non-0/1 booleans rejected. Composite kinds: accepted language compared with the model on the C09 input "
-            "space; model-free: accepted => re-encodes to itself.",
-            "Coq proof (leaf kinds) + correspondence", "5 (C10)"),
+    "C09": ("Theorems C09_sound / C09_stable (full statements, every type): whatever the decoder accepts (scope <= available "
+            "bytes) is a well-formed value (lengths within limits, integers in range, valid selector), its backing is "
+            "exactly the constructor's, its root is the spec root, re-encoding gives the consumed bytes and their count, and "
+            "it survives a further encode / decode cycle; the decoder is a total function failing only with error values. "
+            "Python behaviour on every byte string (exception classes, readability): correspondence over ~15k byte strings "
+            "per run (exhaustive short strings, exhaustive first / last byte of valid encodings, structure-aware "
+            "corruptions) + model-free oracles.",
+            "Coq proof (decoder soundness, all types) + correspondence with model-free oracles", "5 (C09)"),
+    "C10": ("Theorems C10_canonical / C10_injective / C10_language / C10_stream (full statements, every type): decoding "
+            "success implies the input is the spec encoding of a well-formed value and re-encoding reproduces exactly the "
+            "input; no two distinct byte strings decode to the same value; accepted strings = valid encodings (< 4 GiB); "
+            "scoped stream form. Python decoders vs. model: accepted language compared on the C09 input space; "
+            "model-free: accepted => re-encodes to itself.",
+            "Coq proof (canonicity, all types) + correspondence", "5 (C10)"),
     "C11": ("Theorems: the implementation model's is_fixed / min / max / type_byte_length equal the specification's for "
             "every type (induction on ty); every well-formed value's spec encoding length lies in [min_len, max_len] and "
             "equals fsize for fixed types (full nesting). value_byte_length tied by correspondence + model-free oracle.",
